@@ -183,6 +183,32 @@ fn main() {
             format!("flavours\nNEW {}\nCACHED {}\nPLANNED {}\nOBJECT {}\nDECODED {}", show(&first), show(&second), show(&planned), via_object,
                     match res { Some(d) => hex(&d), None => "none".to_string() })
         }),
+        // object-vs-blocks F T Z : every block encoder inside Encoder::new against a standalone SourceBlockEncoder::new and an
+        // explicitly planned one over the same (zero-padded) block bytes: source and repair packets must be identical
+        "object-vs-blocks" => catch(|| {
+            let f: usize = arg(&a, 1);
+            let t: u16 = arg(&a, 2);
+            let z: u8 = arg(&a, 3);
+            let data: Vec<u8> = (0..f).map(|i| (((i * 61 + 5) ^ (i >> 2)) & 0xFF) as u8).collect();
+            let cfg = ObjectTransmissionInformation::new(f as u64, t, z, 1, 1);
+            let enc = Encoder::new(&data, cfg);
+            let offsets = raptorq::calculate_block_offsets(&data, &cfg);
+            let mut out = vec![];
+            for (i, (start, end)) in offsets.iter().enumerate() {
+                let mut block = data[*start..(*end).min(f)].to_vec();
+                block.resize(end - start, 0);
+                let k = block.len() / t as usize;
+                let alone = SourceBlockEncoder::new(i as u8, &cfg, &block);
+                let planned = SourceBlockEncoder::with_encoding_plan(i as u8, &cfg, &block, &SourceBlockEncodingPlan::generate(k as u16));
+                let inside = &enc.get_block_encoders()[i];
+                let same = inside.source_packets() == alone.source_packets()
+                    && inside.repair_packets(0, 4) == alone.repair_packets(0, 4)
+                    && planned.repair_packets(0, 4) == alone.repair_packets(0, 4)
+                    && inside.repair_packets(1 << 20, 2) == alone.repair_packets(1 << 20, 2);
+                out.push(format!("{}:{}:{}", i, k, same));
+            }
+            format!("blocks {}", out.join(","))
+        }),
         "plan" => catch(|| {
             let p = SourceBlockEncodingPlan::generate(arg(&a, 1));
             let q = SourceBlockEncodingPlan::generate(arg(&a, 1));
